@@ -41,10 +41,9 @@ import (
 // spec/Surfaces.tla allows.
 
 type sfPstConn struct {
-	c      *net.TCPConn
-	df     *proj.SfPstDeframer
-	synced bool // lal has read a frame from it, so it was accepted
-	gone   bool // closed by us, or seen closed by lal
+	c    *net.TCPConn
+	df   *proj.SfPstDeframer
+	gone bool // closed by us, or seen closed by lal
 }
 
 type sfPst struct {
@@ -136,16 +135,29 @@ func (p *sfPst) registered() (bool, uint64) {
 	return true, st.StatPub.ReadBytesSum
 }
 
+// sfPstUntil polls f for at most d.  The first wait of a run that expires leaves a marker in the run's scratch
+// directory (shared by the child processes): the run has failed then, and the waits behind it are cut to a fraction
+// so that a lal that never does what is waited for does not cost minutes.
 func sfPstUntil(d time.Duration, f func() bool) bool {
+	if sfPstMarker != "" {
+		if _, err := os.Stat(sfPstMarker); err == nil && d > sfPstWait/50 {
+			d = sfPstWait / 50
+		}
+	}
 	dl := time.Now().Add(d)
 	for !f() {
 		if time.Now().After(dl) {
+			if sfPstMarker != "" {
+				os.WriteFile(sfPstMarker, []byte("a wait expired"), 0644)
+			}
 			return false
 		}
 		time.Sleep(30 * time.Microsecond)
 	}
 	return true
 }
+
+var sfPstMarker string
 
 // consumed waits until lal has counted the complete frames sent so far (or the session is gone).
 func (p *sfPst) consumed() bool {
@@ -245,7 +257,6 @@ func (p *sfPst) open() *sfPstConn {
 		p.setNote("frames_not_consumed: first frame of a new connection")
 		return x
 	}
-	x.synced = true
 	one := make([]byte, 1)
 	for _, o := range prev {
 		if o.gone {
@@ -283,7 +294,7 @@ func sfApiCode(c int) []int {
 	return []int{c}
 }
 
-// ended: after an API call that may have disposed the session, wait until the group has let go of a session
+// settle: after an API call that may have disposed the session, wait until the group has let go of a session
 // whose listener is closed; reports whether the session is still the publisher.
 func (p *sfPst) settle() bool {
 	if sfListening(p.port) {
@@ -305,6 +316,7 @@ func (p *sfPst) closeAll() {
 }
 
 func (e *sfEnv) runPst(sc *sfScenario, end M) (obs []sfObs) {
+	sfPstMarker = e.base + "/pst-wait-expired"
 	e.httpServers()
 	if sfHttp.err != "" {
 		end["note"] = "http servers: " + sfHttp.err
@@ -480,6 +492,7 @@ func (e *sfEnv) runPst(sc *sfScenario, end M) (obs []sfObs) {
 		n := sfPstGoroutines()
 		note(fmt.Sprintf("goroutine_left: %d of PubSession.runLoopTcp after the sessions ended and all connections were closed", n-sfPstLeft))
 		sfPstLeft = n
+		sfRetire = true // whatever they do (one that ignores read errors spins), the scenarios behind this one get a fresh process
 	}
 	sfTick++
 	sm.VerifTick(sfTick)
